@@ -235,24 +235,31 @@ def raw_moment_tensor(mu, Sig, order, exact=False):
     return total
 
 
-def expect_poly(mu, Sig, forms, spec, exact=False):
-    """E[ einsum over affine forms ] for x~N(mu,Sig).
+def raw_moments(mu, Sig, maxorder=4, exact=False):
+    return [raw_moment_tensor(mu, Sig, k, exact=exact) for k in range(maxorder + 1)]
 
-    forms: list of (A [K,D], a [K]) affine forms f_k(x) = A x + a.
-    spec : einsum output spec on the form indices, e.g. for (Ax+a)(Bx+b)'(Cx+c):
-           'i,j,j->i'.
-    The polynomial is expanded exactly: each form contributes either its linear
+
+def expect_poly(moments, forms, spec, exact=False):
+    """E[ einsum over affine forms ] for x~N(mu,Sig); moments = raw_moments(mu,Sig).
+
+    forms: list of (A [K,D], a [K]) affine forms f_k(x) = A x + a  (A may be 1-D
+           [D] with scalar a for a scalar-valued form).
+    spec : einsum spec on the form indices, e.g. for (Ax+a)(Bx+b)'(Cx+c): 'i,j,j->i';
+           a scalar-valued form has the empty index string.
+    The polynomial is expanded literally: each form contributes either its linear
     part (consuming one x) or its constant part.
     """
     dtype = object if exact else float
     n = len(forms)
+    if n == 0:
+        return np.array(1, dtype=dtype)
     ins, out = spec.split("->")
     ins = ins.split(",")
     assert len(ins) == n
     result = None
     for mask in itertools.product([0, 1], repeat=n):
         order = sum(mask)
-        Mx = raw_moment_tensor(mu, Sig, order, exact=exact)
+        Mx = moments[order]
         operands = []
         subs = []
         xl = iter("pqrstuvw")
